@@ -423,6 +423,9 @@ private:
                 return false;
             }
             if (m_unbuf_recv_cv.wait(m_unbuf_mutex, timeout) < 0 && errno == ETIMEDOUT) {
+                // a sender may have handed its value over (and been told so)
+                // while we were timing out: then take it
+                if (m_handoff_ready) break;
                 return false;
             }
         }
